@@ -172,15 +172,31 @@ func (v *DataModelView) DrawRelation(
 				}
 			}
 		} else if elem, collection := collectionOf(attrType); elem != nil {
-			// a set, sequence or list column is listed like the same field of a tuple
-			_, _, label, _ := getNames(elem)
+			// a set, sequence or list column is listed like the same field of a tuple, and related to the type
+			// of its elements when that is a type of the model
+			appName, path, label, isPrimitive := getNames(elem)
 			s = fmt.Sprintf("+ %s : **%s <%s>**\n", attrName, collection, label)
+			if typeName := syslutil.JoinTypePath(path); !isPrimitive && viewParam.Types[appName+"."+typeName] != nil {
+				addRelationship(relationshipMap, encEntity, v.UniqueVarForAppName(appName, typeName), `0..*`)
+			}
 		} else {
 			s = fmt.Sprintf("+ %s : %s\n", attrName, strings.ToLower(attrType.GetPrimitive().String()))
 		}
 		v.StringBuilder.WriteString(s)
 	}
 	v.StringBuilder.WriteString("}\n")
+}
+
+// addRelationship records one more relationship from one class alias to another; the first one decides the label.
+func addRelationship(relationshipMap map[string]map[string]RelationshipParam, from, to, relation string) {
+	if _, exists := relationshipMap[from]; !exists {
+		relationshipMap[from] = map[string]RelationshipParam{}
+	}
+	if old, again := relationshipMap[from][to]; again {
+		relationshipMap[from][to] = RelationshipParam{Entity: old.Entity, Relationship: old.Relationship, Count: old.Count + 1}
+	} else {
+		relationshipMap[from][to] = RelationshipParam{Entity: to, Relationship: relation, Count: 1}
+	}
 }
 
 // collectionOf returns the element type of a set, sequence or list type and the word the diagram uses for it,
